@@ -76,6 +76,11 @@ CHECKS["C12"]["text"] += " History part for the classical sieve: the real qsieve
 CHECKS["C13"]["text"] += " Root table 'bucket-pile' (a 256-wide bucket of an odd block overflows into the overflow list below its capacity at reported positions) and a 12500-prime base (primes above 2^18 hitting a 20-block interval several times) in the quick tier."
 CHECKS["C16"]["text"] += " Three-prime inputs for P-1 and P+1 (ring shrunk between the stages); the 64-bit two-stage PM1Base::factor: 8 budgets x EVERY stage-2 prime the budget pays for."
 
+CHECKS["C11"]["text"] += " The chain histories are repeated with large primes just above 2^23 and just above 2^31."
+CHECKS["C18"]["text"] += " The 120- and 128-bit constructed discriminants are in the quick tier as well."
+CHECKS["C19"]["text"] += " Families K (index = small multiple of a CRT prime of the dense routines) and L (short rows spanning a sublattice of index 2,3,5,7 in its saturation, indices up to 125.9 bits)."
+CHECKS["C20"]["text"] += " Row selection is called under the panic guard for requests up to 1e18."
+
 NOT_APPLICABLE = {
 }
 
